@@ -120,6 +120,9 @@ def curated():
     add({"Root": [rule("(?:a|b)*"), rule("c")]})
     # deep push chain
     add({"Root": [rule("a", act="push", state="Root"), rule("b", act="pop"), rule("c")]})
+    # a pushed state that gets its back-reference rule only through Include; a state that is both pushed and included
+    add({"Root": [named("Open", "(a+)b", "push", "S1"), rule("[a-c]"), rule("\\s+", True)], "S1": [inc("S2"), rule("[a-c]")], "S2": [named("End", "\\1", "pop"), rule("\\s+", True)]})
+    add({"Root": [inc("S1"), rule("a")], "S1": [rule("\\(", act="push", state="S1"), rule("\\)", act="pop"), rule("b")]})
     # a pattern that starts with ^ and has a top-level alternation: every alternative is anchored at the current position
     add({"Root": [rule("^a|b"), rule("c"), rule("\\s+", True)]})
     add({"Root": [rule("\\Aa|c"), rule("(?m)^b|a"), rule("(?s).")]})
